@@ -20,11 +20,14 @@ class Exec:
         self.p = subprocess.Popen([exe], stdin=subprocess.PIPE, stdout=subprocess.PIPE, stderr=subprocess.PIPE,
                                   universal_newlines=True, bufsize=1)
         self.trace = open(trace_path, "w") if trace_path else None
+        self.cmds = open(trace_path + ".cmds", "w") if trace_path else None
         self.records = 0
         self.dead = None
 
     def send(self, line):
         self.p.stdin.write(line + "\n")
+        if self.cmds:
+            self.cmds.write(line + "\n")
 
     def call(self, line):
         """send an API command, return the parsed record (None if the executor died)"""
@@ -41,6 +44,8 @@ class Exec:
         if self.trace:
             self.trace.write(out)
         self.records += 1
+        if self.cmds:
+            self.cmds.write("#rec %d\n" % self.records)
         return json.loads(out)
 
     def close(self):
@@ -54,6 +59,8 @@ class Exec:
             self.p.kill()
         if self.trace:
             self.trace.close()
+        if self.cmds:
+            self.cmds.close()
         return self.p.returncode
 
 
@@ -366,7 +373,7 @@ def validate_chunk(d, module, trace_file, timeout=1200):
         if head == '"DIFF"':
             diffs.append(dict(l=int(parts[1]), tag=json.loads(parts[2]), detail=parts[3:]))
         elif head == '"NOTE"':
-            notes.append((int(parts[1]), json.loads(parts[2])))
+            notes.append((int(parts[1]), parts[2].strip().strip('"{}').replace('"', "")))
         elif head == '"CHECKED"':
             checked = int(parts[1])
     err = None
@@ -388,3 +395,19 @@ def validate(fx, trace_files, dev=(), jobs=8):
         for f in futs:
             results.append(f.result())
     return d, results
+
+
+def replay_prefix(trace_file, l):
+    """command lines that reproduce record l of a trace (from the `new` of its episode)"""
+    lines = open(trace_file + ".cmds").read().splitlines()
+    out, start, mark = [], 0, 0
+    for ln in lines:
+        if ln.startswith("#rec "):
+            if int(ln[5:]) == l:
+                break
+            mark = len(out)
+            continue
+        if ln == "new":
+            start = mark            # script lines sent ahead of `new` belong to it
+        out.append(ln)
+    return out[start:]
